@@ -87,6 +87,7 @@ struct Op
 	std::vector<long long> i;
 	std::vector<double> d;
 	std::string s;
+	int t = 0;	 // caller thread that issues this op (0 = the process's main thread); assigned by the core, see assign_threads()
 	Op() {}
 	explicit Op(const std::string& k) : kind(k) {}
 	Op(const std::string& k, std::vector<long long> ii, std::vector<double> dd = {}, std::string ss = "") : kind(k), i(ii), d(dd), s(ss) {}
@@ -140,6 +141,10 @@ struct Shared
 	int32_t nontrivial;
 	uint64_t ambient_errno;	  // ops started with a non-zero errno left behind (generic fault)
 	uint64_t ambient_fpflags;  // ops started with sticky IEEE exception flags raised (generic fault)
+	uint64_t dirty_stack;	  // ops started with the stack below the caller filled with a pattern (generic fault)
+	uint64_t heap_perturbed;	  // runs with glibc's M_PERTURB: fresh and freed heap blocks filled with a plan-chosen byte
+	uint64_t thread_ops;		  // ops issued from a caller thread other than the main thread
+	uint64_t thread_switches;  // op boundaries at which the issuing thread changed
 	uint64_t early_calls;	  // library calls made before main() whose results this run checked (static-initialisation-order fault)
 	uint64_t probes[MAX_PROBES];
 	double metrics[32];
@@ -211,7 +216,21 @@ struct Ctx
 			std::feraiseexcept(fl);
 			sh->ambient_fpflags++;
 		}
+		// ... and so is the content of the stack below the caller's frame: whatever ran before left its bytes there. Code that
+		// reads a local it never initialised gets zeros in a short test program and something else in a long-running one.
+		static const int PATTERN[4] = {-1, 0x00, 0xFF, 0x7F};
+		int pat						= PATTERN[mix64(salt ^ 0x57ACCull ^ ((uint64_t) k << 20)) >> 11 & 3];
+		if(pat >= 0)
+		{
+			dirty_stack(pat);
+			sh->dirty_stack++;
+		}
 	}
+	// Caller-thread dimension: the op body runs on the plan-chosen caller thread while every other thread is parked; exactly one
+	// thread runs at any time and the hand-over points are the op boundaries, so a run is still a pure function of the plan.
+	// Exceptions (violations) are carried back to the coordinating thread.
+	void on_thread(int t, const std::function<void()>& body);
+	static void dirty_stack(int byte);	 // sim.cpp: fills 48 kB below the current frame with `byte`
 	void probe(int id, uint64_t n = 1)
 	{
 		if(id >= 0 && id < MAX_PROBES)
